@@ -77,7 +77,7 @@ def decl_key(decls):
     return json.dumps(decls, sort_keys=True)
 
 
-def build_config(work, decl_list, notation=0, name="cfg"):
+def build_config(work, decl_list, notation=0, name="cfg", anyret=False):
     """decl_list: list of `decls` (each a list of overloads). Returns (cfgdir, {decl_key: method name})."""
     d = work.sub(name)
     for f in os.listdir(C.SHIPPED_CFG):
@@ -89,7 +89,7 @@ def build_config(work, decl_list, notation=0, name="cfg"):
         names[decl_key(decls)] = m
         for ov in decls:
             methods.append({"name": m, "arguments": [param_json(p, notation) for p in ov],
-                            "return_type": {"type": ["Int"]}})
+                            "return_type": {"type": ["Untyped" if anyret else "Int"]}})
     new = {"name": "new", "arguments": [], "return_type": {"type": [TGT]}}
     json.dump({"frame": "Builtin", "class": TGT, "instance_methods": methods, "class_methods": [new]},
               open(os.path.join(d, "zz_vf_tgt.json"), "w"))
